@@ -199,11 +199,29 @@ pub fn gen_case(args: &Args, rng: &mut Rng, finite_inputs: bool) -> Case {
     // programs whose call tree explodes (nested higher-order calls) would run unbounded on the
     // WASM runtime, which has no instruction budget: draw again (C03 keeps them, it judges hangs)
     if args.prop != "C03" {
-        for _ in 0..6 {
+        // (a program that is still heavy after many draws is replaced by one without higher-order
+        // functions: keeping the last draw let programs through whose call tree the reference
+        // interpreter cannot finish either - found by ./check C05 thorough at seed 7, where such a
+        // program overflowed the VM's native stack)
+        let mut light = false;
+        for _ in 0..24 {
             if !crate::refsem::is_heavy(&prog, 2, 150_000) {
+                light = true;
                 break;
             }
             prog = generate(rng, feat.clone());
+        }
+        if !light {
+            let mut f2 = feat.clone();
+            f2.hof = false;
+            f2.lambdas = false;
+            f2.escaping_closures = false;
+            for _ in 0..24 {
+                prog = generate(rng, f2.clone());
+                if !crate::refsem::is_heavy(&prog, 2, 150_000) {
+                    break;
+                }
+            }
         }
     }
     if args.q("assign-to-variable-captured-by-another-closure") {
